@@ -81,6 +81,7 @@ var HostilePool = []string{
 	"\n", "\r\n", "\t", " ", "NaN", "Inf", "-Inf", "Infinity", "0x1p-2", "1_000", "1e400", "TRUE", "NULL", "null",
 	"AND", "or", "NOT", "to", "é", "ü", "日本", "é", "‏", "\U0001F600", "�", ":", "=", ">", "<", "+", "-",
 	"~", "^", "*", "/", "//", "'; DROP TABLE t; --", "' OR '1'='1", `" OR ""="`, "E'\\''", "$$", "U&'\\0041'", "\\'", "x'y",
+	`"a"`, `"a"."b"`, `"t"."a" IS NULL OR "t"."b"`, `a" OR "b`, `a" = 'x' OR "b`, `") OR ("`, `"a"::text`, `"a" -- `, `a"."b`, `'a' OR 'b'`, `1 OR 1=1`, `x') OR ('1'='1`,
 	"&&", "||", "a||b", "x && y", "!", "!=", "==", "<>", "->", "=>", "::", "..", "@", "#", "|", "&", "`", "${x}", "%s", "\\n", "\\\\*", "a\\\\b",
 	"00501", "09999", "10", "20", "1e3", "2.50", "-7", "+7", "007", "1_000", " 5", "5 ", "0x10",
 	"1", "0", "-1", "5.0", "1e5", ".5", "٣", "-٣", "-३", "-３", "010", "0x1F", "min", `"min":`, `"max":`, `"left":`, "{", "}}", "%!s(int=1)", "%!", "%d",
